@@ -72,6 +72,8 @@ func longOperands() []Operand {
 func longPartners() []Operand {
 	seventy := bigOf("1234567890123456789012345678901234567890123456789012345678901234567891")
 	return []Operand{FinBig(seventy, -69, false), FinBig(seventy, -30, true), Fin(1, 150, false), Fin(5, -1, false),
+		// partners more than 128 exponent steps away from everything else (exponent gaps beyond the power-of-ten table)
+		Fin(1, -200, false), Fin(1, -200, true), Fin(1, -129, false), Fin(3, 200, true), Fin(7, -135, false),
 		FinBig(bigOf("9999999999999999999999999999999999999999999999999999999999999999999999"), -70, false)}
 }
 
